@@ -37,7 +37,7 @@ func runSandbox(dir string, pre []string, sandbox string, args []string, marker 
 	argv = append(argv, args...)
 	cmd := exec.Command(argv[0], argv[1:]...)
 	cmd.Dir = dir
-	cmd.Env = append(append(os.Environ(), "VERIF_MARKER="+marker), henv...)
+	cmd.Env = append(append(os.Environ(), "VERIF_MARKER="+marker, "X=getppid", "A=allow", "N=getpid"), henv...)
 	var so, se bytes.Buffer
 	cmd.Stdout, cmd.Stderr = &so, &se
 	cmd.SysProcAttr = &syscall.SysProcAttr{Setpgid: true}
@@ -175,7 +175,23 @@ func c15() {
 		line := "# " + strings.Repeat("padding ", 12) + "\n"
 		return strings.Repeat(line, n/len(line)+1)
 	}
-	for _, sz := range []int{5000, 66000, 200000, 1 << 20} {
+	bigSizes := []int{5000, 66000, 200000, 1 << 20, 1<<20 + 4096, 3 << 20, 16<<20 + 17}
+	if run.Thorough() {
+		bigSizes = append(bigSizes, 64<<20, 130<<20)
+	}
+	// references to the environment and dotted keys: the policy is what the file says, literally - "${X:getppid}" is no
+	// syscall name, whatever the environment holds (the sandbox runs with X, A and N set)
+	for k, bad := range []string{"${X}", "${X:getppid}", "${NOPE:getppid}", "${X:}", "$X", "${env.X}", "%{X}", "${X:${N:getppid}}"} {
+		faults = append(faults, fault{kind: fmt.Sprintf("syscall-name-is-a-reference-%d", k), policy: str(strings.Replace(validYAML, "- getppid", "- \""+bad+"\"", 1)), args: std()})
+	}
+	for k, bad := range []string{"${A}", "${A:allow}", "${NOPE:allow}"} {
+		faults = append(faults, fault{kind: fmt.Sprintf("action-is-a-reference-%d", k), policy: str(strings.Replace(validYAML, "default_action: allow", "default_action: \""+bad+"\"", 1)), args: std()},
+			fault{kind: fmt.Sprintf("group-action-is-a-reference-%d", k), policy: str(strings.Replace(validYAML, "action: errno", "action: \""+bad+"\"", 1)), args: std()})
+	}
+	faults = append(faults,
+		fault{kind: "dotted-keys-only", policy: str("seccomp.default_action: allow\nseccomp.syscalls:\n- action: errno\n  names:\n  - getppid\n"), args: std()},
+		fault{kind: "groups-under-a-dotted-key", policy: str("seccomp:\n  default_action: allow\nseccomp.syscalls:\n- action: errno\n  names:\n  - getppid\n"), args: std()})
+	for _, sz := range bigSizes {
 		faults = append(faults,
 			fault{kind: fmt.Sprintf("unknown-syscall-after-%d-bytes", sz), policy: str(validYAML + pad(sz) + "  - action: errno\n    names:\n    - no_such_syscall\n"), args: std()},
 			fault{kind: fmt.Sprintf("malformed-after-%d-bytes", sz), policy: str(validYAML + pad(sz) + "  - action: [unclosed\n"), args: std()},
@@ -332,7 +348,7 @@ func c15() {
 					p = spec.Policy()
 					comp = vlib.Compile(spec.Policy(), t)
 					ref = vlib.NewRef(spec.Policy(), t)
-					padTo = []int{5000, 66000, 200000, 1 << 20}[(i/5)%4]
+					padTo = bigSizes[(i/5)%len(bigSizes)]
 					break
 				}
 			}
